@@ -510,7 +510,7 @@ def grid (l : Line) (sigma : Rat) (nu : Option Rat) : IO Unit := do
   IO.println s!"obs {id} F={showList Fm}"
   let fin := FB.all F64.isFinite
   if !fin then
-    IO.println s!"spec {id} range=bad(nonfinite) mono=ok sym=ok quad=ok inv=ok"
+    IO.println s!"spec {id} range=bad(nonfinite) mono=ok sym=ok quad=ok inv=ok tail=ok"
   else
   let F := FB.map toRat
   let rng := match (xsB.zip F).find? (fun (_, f) => f < 0 ∨ f > 1) with
@@ -564,7 +564,13 @@ def grid (l : Line) (sigma : Rat) (nu : Option Rat) : IO Unit := do
               return (s!"bad(x~{showRat x},inv={showB v})", false)
     return (res, kf)
   let _ := (kfq, kfi)
-  IO.println s!"spec {id} range={rng} mono={mono (xsB.zip F)} sym={sym} quad={quad} inv={inv}"
+  -- tails in RELATIVE terms: F(x) against the independent tail reference T (normal: Laplace's
+  -- continued fraction for the Mills ratio, evaluated by the harness) wherever T is a normal float
+  let TB := bitsList (l.getD "T")
+  let tail := match ((xsB.zip F).zip TB).find? (fun ((_, f), t) =>
+      F64.isFinite t && toRat t ≥ pow2 (-1022) && rabs (f - toRat t) > mkRat 1 (10 ^ 10) * toRat t) with
+    | some ((x, f), t) => s!"bad(x={showB x},F~{showRat f},ref={showB t})" | none => "ok"
+  IO.println s!"spec {id} range={rng} mono={mono (xsB.zip F)} sym={sym} quad={quad} inv={inv} tail={tail}"
 
 /-! ### generic InvCDF on arithmetic-only distributions -/
 
@@ -672,6 +678,29 @@ def nrand (l : Line) : IO Unit := do
     | none => if l.getD "nilbad" == "0" then "ok" else "bad(nil-source)"
   IO.println s!"spec {l.id} rand={verdict}"
 
+/-- `NormalDist.InvCDF` on all of (0,1): finite, monotone, relative round trip -/
+def ninvtail (l : Line) : IO Unit := do
+  let ps := bitsList (l.getD "ps"); let X := bitsList (l.getD "X"); let C := bitsList (l.getD "C")
+  let fin := match (ps.zip X).find? (fun (_, x) => !F64.isFinite x) with
+    | some (p, x) => s!"bad(p={showB p},inv={showB x})" | none => "ok"
+  let rec mono : List (F64.Bits × F64.Bits) → String
+    | (_, a) :: (p2, b) :: r =>
+      if F64.isFinite a && F64.isFinite b && toRat a > toRat b then s!"bad(at p={showB p2})" else mono ((p2, b) :: r)
+    | _ => "ok"
+  let mu := toRat (bitsD (l.getD "mu")); let sg := toRat (bitsD (l.getD "sigma"))
+  -- relative tolerance 1e-9 plus the conditioning of the scaled representation: x = z·σ + μ is
+  -- rounded to ulp(|x|), i.e. z is known to ulp(x)/σ, which moves the tail by a factor (|z|+1)·that
+  let rt := match ((ps.zip X).zip C).find? (fun ((p, x), c) =>
+      let pq := toRat p
+      let xq := toRat x
+      let rel : Rat := mkRat 1 (10 ^ 9) + 2 * (rabs ((xq - mu) / sg) + 1) * ulp (rmax (rabs xq) (rabs mu)) / sg
+      F64.isFinite x && pq ≥ pow2 (-1022) &&
+        !(F64.isFinite c &&
+          (if pq ≤ mkRat 1 2 then rabs (toRat c - pq) ≤ rel * pq
+           else rabs (toRat c - pq) ≤ rel * (1 - pq) + pow2 (-52)))) with
+    | some ((p, x), c) => s!"bad(p={showB p},inv={showB x},cdf={showB c})" | none => "ok"
+  IO.println s!"spec {l.id} finite={fin} mono={mono (ps.zip X)} roundtrip={rt}"
+
 def randK (l : Line) : IO Unit := do
   let v := if l.getD "nonfinite" == "0" then "ok" else s!"bad({l.getD "nonfinite"}of{l.getD "n"},first={l.getD "firstbad"})"
   IO.println s!"spec {l.id} finite={v}"
@@ -700,6 +729,7 @@ def handle (l : Line) : IO Unit := do
   | "reuse" => reuse l
   | "rand" => randK l
   | "nrand" => nrand l
+  | "ninvtail" => ninvtail l
   | "sweep" => IO.println s!"spec {l.id} conv=ok"
   | _ => pure ()
 
